@@ -64,6 +64,7 @@ type world struct {
 	tcp     *tcpclient.Conn
 	tp      *mem.TCPPeer
 	cc      conn
+	bw      bool // cfg udpbw / tcpbw: block-wise transfer enabled; notifications of live observations arrive in two blocks
 	regs    []*reg
 	mid     int32
 	start   time.Time
@@ -96,7 +97,7 @@ func tagOf(m *pool.Message) string {
 	if err != nil || len(b) == 0 {
 		return "?"
 	}
-	return string(b)
+	return strings.TrimRight(string(b), ".") // block-wise notifications carry the tag padded with dots to two blocks
 }
 
 func (w *world) inject(tok uint64, code codes.Code, seq string, tag string) {
@@ -139,6 +140,106 @@ func (w *world) inject(tok uint64, code codes.Code, seq string, tag string) {
 		panic(err)
 	}
 	_ = w.tp.Write(append([]byte(nil), b...))
+}
+
+// liveReg: does the library hold a registered, not cancelled observation for tok (as far as the harness can see)?
+func (w *world) liveReg(tok uint64) bool {
+	w.mu.Lock()
+	defer w.mu.Unlock()
+	for _, r := range w.regs {
+		// (Canceled() looks the token up: once a registration was seen gone it stays gone for the harness, a later
+		// registration with the same token must not revive it)
+		if r.tok == tok && r.done && !r.failed && !r.gone && r.obs != nil {
+			if o, ok := r.obs.(interface{ Canceled() bool }); ok && !o.Canceled() {
+				return true
+			}
+		}
+	}
+	return false
+}
+
+// injectBlockwise delivers a notification as RFC 7959 section 2.6 describes: the first 16-byte block carries the
+// observation's token and the Observe option; the library asks for the second block with a GET under a NEW token, which
+// the harness answers.  The application must see one notification: token of the observation, sequence number of the first
+// block, the whole body.
+func (w *world) injectBlockwise(tok uint64, code codes.Code, seq string, tag string) {
+	body := []byte(tag + strings.Repeat(".", 24-len(tag)))
+	var etag []byte
+	if len(tag) > 0 && tag[0]%2 == 0 {
+		etag = bytes.Repeat([]byte{tag[0]}, 1+int(tag[0])%8)
+	}
+	mk := func(token message.Token, num uint32, more bool, payload []byte, withObs bool) *pool.Message {
+		m := pool.NewMessage(context.Background())
+		m.SetCode(code)
+		m.SetToken(token)
+		if withObs {
+			v, _ := strconv.ParseUint(seq, 10, 32)
+			m.SetObserve(uint32(v))
+		}
+		m.SetContentFormat(message.TextPlain)
+		if etag != nil {
+			m.SetOptionBytes(message.ETag, etag)
+		}
+		blk := num << 4 // SZX 0 = 16 bytes
+		if more {
+			blk |= 8
+		}
+		m.SetOptionUint32(message.Block2, blk)
+		m.SetBody(bytes.NewReader(payload))
+		return m
+	}
+	if w.udp != nil {
+		w.scanSent()
+		w.mid++
+		first := mk(tokBytes(tok), 0, true, body[:16], true)
+		first.SetMessageID(w.mid)
+		first.SetType(message.NonConfirmable)
+		b, _ := first.MarshalWithEncoder(udpcoder.DefaultCoder)
+		if err := w.udp.Process(nil, append([]byte(nil), b...)); err != nil {
+			w.log("process-error")
+		}
+		synctest.Wait()
+		for _, d := range w.us.TakeSent() {
+			q := pool.NewMessage(context.Background())
+			if _, err := q.UnmarshalWithDecoder(udpcoder.DefaultCoder, d.Data); err != nil || q.Code() != codes.GET {
+				continue
+			}
+			if blk, err := q.GetOptionUint32(message.Block2); err != nil || blk>>4 != 1 {
+				continue
+			}
+			second := mk(q.Token(), 1, false, body[16:], false)
+			if q.Type() == message.Confirmable {
+				second.SetType(message.Acknowledgement)
+				second.SetMessageID(q.MessageID())
+			} else {
+				w.mid++
+				second.SetType(message.NonConfirmable)
+				second.SetMessageID(w.mid)
+			}
+			b2, _ := second.MarshalWithEncoder(udpcoder.DefaultCoder)
+			if err := w.udp.Process(nil, append([]byte(nil), b2...)); err != nil {
+				w.log("process-error")
+			}
+		}
+		return
+	}
+	w.tp.TakeFrames()
+	first := mk(tokBytes(tok), 0, true, body[:16], true)
+	b, _ := first.MarshalWithEncoder(tcpcoder.DefaultCoder)
+	_ = w.tp.Write(append([]byte(nil), b...))
+	synctest.Wait()
+	for _, fr := range w.tp.TakeFrames() {
+		q := pool.NewMessage(context.Background())
+		if _, err := q.UnmarshalWithDecoder(tcpcoder.DefaultCoder, fr); err != nil || q.Code() != codes.GET {
+			continue
+		}
+		if blk, err := q.GetOptionUint32(message.Block2); err != nil || blk>>4 != 1 {
+			continue
+		}
+		second := mk(q.Token(), 1, false, body[16:], false)
+		b2, _ := second.MarshalWithEncoder(tcpcoder.DefaultCoder)
+		_ = w.tp.Write(append([]byte(nil), b2...))
+	}
 }
 
 // scanSent drains what the datagram connection wrote and remembers the message IDs of confirmable registration requests
@@ -204,8 +305,12 @@ func runCase(t *testing.T, transport string, ops [][]string) []string {
 		deflt := func(tok message.Token, m *pool.Message) {
 			w.log(fmt.Sprintf("default %s", tagOf(m)))
 		}
+		if strings.HasSuffix(transport, "bw") {
+			w.bw = true
+			transport = strings.TrimSuffix(transport, "bw")
+		}
 		if transport == "udp" {
-			w.udp, w.us = mem.NewUDPConn(mem.UDPOpts{Mutate: func(cfg *udpclient.Config) {
+			w.udp, w.us = mem.NewUDPConn(mem.UDPOpts{Blockwise: w.bw, Mutate: func(cfg *udpclient.Config) {
 				cfg.LimitClientParallelRequests = 8
 				cfg.LimitClientEndpointParallelRequests = 8
 				cfg.TransmissionNStart = 64 // confirmable registrations must not queue behind one another (NSTART is C06's subject)
@@ -217,7 +322,7 @@ func runCase(t *testing.T, transport string, ops [][]string) []string {
 			w.tcp, w.tp, err = mem.NewTCPConn(mem.TCPOpts{Mutate: func(cfg *tcpclient.Config) {
 				cfg.LimitClientParallelRequests = 8
 				cfg.LimitClientEndpointParallelRequests = 8
-				cfg.BlockwiseEnable = false
+				cfg.BlockwiseEnable = w.bw
 				cfg.Handler = func(_ *responsewriter.ResponseWriter[*tcpclient.Conn], m *pool.Message) { deflt(m.Token(), m) }
 			}})
 			if err != nil {
@@ -277,7 +382,11 @@ func runCase(t *testing.T, transport string, ops [][]string) []string {
 					if d := time.Duration(at) - time.Since(w.start); d > 0 {
 						time.Sleep(d)
 					}
-					w.inject(tok, codes.Code(code), f[3], f[5])
+					if w.bw && codes.Code(code) == codes.Content && f[3] != "-" && w.liveReg(tok) {
+						w.injectBlockwise(tok, codes.Code(code), f[3], f[5])
+					} else {
+						w.inject(tok, codes.Code(code), f[3], f[5])
+					}
 				case "regabort":
 					id, _ := strconv.Atoi(f[2])
 					if id < len(w.regs) {
